@@ -5,10 +5,10 @@ from __future__ import annotations
 import ast
 import collections.abc as _abc
 
-from ..astutil import call_name, calls_in, dotted, unparse, walk_local
+from ..astutil import FuncNode, ancestors, call_name, calls_in, dotted, lexical_guards, unparse, walk_local
 from ..cfg import no_exc
 from ..oracles import load, python_mutators
-from ..report import Registry, sub
+from ..report import Registry, chain, sub
 from .c38 import _decorators as _coll_decorators, _delegations, _interfaces as _coll_interfaces
 
 R = Registry(
@@ -20,17 +20,25 @@ R = Registry(
         "list wrapper, or cannot disturb positions; every mutator of list/set/dict on _AssociationList/"
         "_AssociationSet/_AssociationDict creates intermediaries through _create()/creator and inserts/removes "
         "them through the underlying collection self.col (so ORM events fire), or delegates to a sibling that "
-        "does, or is loudly unavailable; in-place operators return self."
+        "does, or is loudly unavailable; in-place operators return self; for every overridden OrderingList mutator a "
+        "small-scope model (lists of 0..3, every int index in [-(n+2), n+2], both reorder_on_append settings), obtained by "
+        "abstract execution of the method's own AST with Python's list semantics, ends with position == index for every "
+        "element (negative/out-of-range indexes and partial renumbering included); whole-collection assignment to an "
+        "association proxy removes old-only keys, creates new-only keys and keeps -- for dicts re-assigns -- the common ones."
     ),
     not_decided=(
         "persisted rows; index arithmetic of slice assignment (value level); the ordering function itself; "
-        "reorder_on_append=False semantics for pre-numbered entities; scalar association proxies."
+        "reorder_on_append=False semantics for pre-numbered entities; scalar association proxies; list lengths > 3 "
+        "and custom ordering functions in the position model (count_from_0 is modelled; sort is modelled as a reversal; "
+        "calls on objects other than the list are assumed effect-free); a construct outside the modelled Python subset "
+        "ends the check with exit 2, not with a verdict."
     ),
 )
 
 OL = "ext/orderinglist.py"
 AP = "ext/associationproxy.py"
 ORDER_CALLS = ("_reorder", "reorder", "_order_entity")
+LIST_SEM = {k: v for k, v in load("python_list_index_semantics.json").items() if k != "_comment"}
 
 #: list mutators that need no renumbering in OrderingList -- {mutator: reason}
 OL_EXEMPT = {
@@ -67,10 +75,28 @@ def r1(ctx):
         f = cls.methods.get(m)
         if f is not None and not f.type_only:
             g = ctx.cfg(f)
-            order_nodes = [i for n in ORDER_CALLS for i in g.find_calls(f"self.{n}")]
+            pm = f.module.parents()
+            whole = [i for n in ("_reorder", "reorder") for i in g.find_calls(f"self.{n}")]
+            single, loops = [], []
+            for c in calls_in(f.node):
+                if call_name(c) != "self._order_entity":
+                    continue
+                lp = next((a for a in ancestors(pm, c) if isinstance(a, (ast.For, FuncNode))), None)
+                lp = lp if isinstance(lp, ast.For) else None
+                if lp is None:
+                    single += g.nodes_containing(c)
+                elif not lexical_guards(pm, c, stop=lp):
+                    # a renumbering loop does its work at the `for` statement (the zero-iteration path of the CFG is
+                    # not a path without renumbering); WHICH indexes it covers is decided by the model check C50-R3
+                    loops += g.nodes_for(lp)
+            shifts = LIST_SEM.get(m, {}).get("shifts", True)
+            order_nodes = whole + loops + ([] if shifts else single)
             sup = _super_calls(f.node, muts)
             dele = [dn for dn, _ in _delegations(f.node) if dn in muts and dn in cls.methods]
             probs = []
+            if shifts and single and not (whole or loops):
+                probs.append(f"only one element is numbered (`_order_entity` outside a loop) although list.{m} changes the "
+                             f"index of the elements behind it as well")
             if not sup and not dele:
                 probs.append("override neither performs the underlying list mutation nor delegates to an overridden mutator")
             # the only tolerated way to skip renumbering: the list is no longer the owner's collection
@@ -82,7 +108,8 @@ def r1(ctx):
                 for nid in g.nodes_containing(c):
                     after = g.must_pass([nid], [g.exit], order_nodes, edge_ok=ok_edge)
                     before = g.always_preceded(nid, order_nodes, edge_ok=no_exc)
-                    if after is not None and before is not None:
+                    # numbering BEFORE the mutation can only be right when no other element moves
+                    if after is not None and (shifts or before is not None):
                         probs.append("a normal path performs the list mutation without (re)numbering positions: "
                                      + " -> ".join(after[-3:]))
             how = "renumbers" + (" (skipped only when not referenced by owner)" if owner_tests else "") if sup else \
@@ -105,6 +132,384 @@ def r1(ctx):
         what = "reorders the list" if m in order_only else "changes the list"
         ctx.violation(key, f"list.{m} {what} but OrderingList does not override it (and it is not instrumented): afterwards "
                            f"position != index, nothing is flushed and the old order comes back on reload", cls.loc)
+
+
+# ------------------------------------------------------------------- C50-R3: small-scope model of position == index
+class _Unmodelled(Exception):
+    pass
+
+
+class _PyRaise(Exception):
+    """the modelled code raised a Python exception (IndexError from list.pop on a bad index, ...)"""
+
+
+class _Return(Exception):
+    def __init__(self, value):
+        self.value = value
+
+
+class _Opaque:
+    """a value the model knows nothing about (collection adapter, logger, ...); truthy"""
+    def __repr__(self):
+        return "<opaque>"
+
+
+class _Ent:
+    __slots__ = ("name",)
+
+    def __init__(self, name):
+        self.name = name
+
+    def __repr__(self):
+        return self.name
+
+
+_SELF = object()
+_ORDERING_ATTR = object()
+_BIN = {ast.Add: lambda a, b: a + b, ast.Sub: lambda a, b: a - b, ast.Mult: lambda a, b: a * b,
+        ast.FloorDiv: lambda a, b: a // b, ast.Mod: lambda a, b: a % b}
+_CMP = {ast.Lt: lambda a, b: a < b, ast.LtE: lambda a, b: a <= b, ast.Gt: lambda a, b: a > b, ast.GtE: lambda a, b: a >= b,
+        ast.Eq: lambda a, b: a == b, ast.NotEq: lambda a, b: a != b, ast.Is: lambda a, b: a is b,
+        ast.IsNot: lambda a, b: a is not b, ast.In: lambda a, b: a in b, ast.NotIn: lambda a, b: a not in b}
+
+
+class _OLModel:
+    """Abstract execution of OrderingList's own source (AST) against a model list: `items` are entities, `pos` their
+    ordering attribute; the underlying list operations have Python's semantics, `ordering_func` is count_from_0.
+    Nothing of /repo is imported or run: the statements are interpreted here, over a deliberately tiny subset of
+    Python -- anything outside it raises _Unmodelled (the check then ends with exit 2, never with a verdict)."""
+
+    def __init__(self, cls, n, reorder_on_append):
+        self.cls = cls
+        self.items = [_Ent(f"e{i}") for i in range(n)]
+        self.pos = {e: i for i, e in enumerate(self.items)}
+        self.roa = reorder_on_append
+        self.steps = 0
+        self.mutated = False
+
+    # ---- methods
+    def method_node(self, name):
+        f = self.cls.methods.get(name)
+        if f is not None and not f.type_only:
+            return f.node
+        for v in self.cls.assigns.get(name, []):       # `_reorder = reorder`
+            if isinstance(v, ast.Name) and v.id != name:
+                return self.method_node(v.id)
+        return None
+
+    def call_method(self, name, args, depth=0):
+        fn = self.method_node(name)
+        if fn is None:
+            raise _Unmodelled(f"self.{name}() is not a method of OrderingList")
+        if depth > 6:
+            raise _Unmodelled("call depth")
+        a = fn.args
+        if a.vararg or a.posonlyargs:
+            raise _Unmodelled(f"signature of {name}")
+        params = [x.arg for x in a.args][1:]
+        env = {"self": _SELF}
+        defaults = dict(zip(params[len(params) - len(a.defaults):], a.defaults))
+        for i, pn in enumerate(params):
+            if i < len(args):
+                env[pn] = args[i]
+            elif pn in defaults:
+                env[pn] = self.ev(defaults[pn], env, depth)
+            else:
+                raise _Unmodelled(f"{name}(): missing argument {pn}")
+        if a.kwarg:
+            env[a.kwarg.arg] = {}
+        try:
+            self.block(fn.body, env, depth)
+        except _Return as r:
+            return r.value
+        return None
+
+    # ---- statements
+    def block(self, body, env, depth):
+        for st in body:
+            self.steps += 1
+            if self.steps > 5000:
+                raise _Unmodelled("step budget")
+            if isinstance(st, ast.Expr):
+                if isinstance(st.value, ast.Constant):
+                    continue
+                self.ev(st.value, env, depth)
+            elif isinstance(st, (ast.Assign, ast.AnnAssign)):
+                if isinstance(st, ast.AnnAssign) and st.value is None:
+                    continue
+                v = self.ev(st.value, env, depth)
+                for tg in (st.targets if isinstance(st, ast.Assign) else [st.target]):
+                    self.bind(tg, v, env)
+            elif isinstance(st, ast.AugAssign) and isinstance(st.target, ast.Name) and type(st.op) in _BIN:
+                env[st.target.id] = self.arith(_BIN[type(st.op)], env[st.target.id], self.ev(st.value, env, depth))
+            elif isinstance(st, ast.If):
+                self.block(st.body if self.truth(self.ev(st.test, env, depth)) else st.orelse, env, depth)
+            elif isinstance(st, ast.For) and not st.orelse:
+                it = self.ev(st.iter, env, depth)
+                if not isinstance(it, (list, range, tuple)):
+                    raise _Unmodelled(f"iteration over `{unparse(st.iter)}`")
+                for v in list(it):
+                    self.bind(st.target, v, env)
+                    self.block(st.body, env, depth)
+            elif isinstance(st, ast.Return):
+                raise _Return(self.ev(st.value, env, depth) if st.value is not None else None)
+            elif isinstance(st, ast.Pass):
+                pass
+            elif isinstance(st, ast.Raise):
+                raise _PyRaise(unparse(st)[:60])
+            else:
+                raise _Unmodelled(f"statement `{unparse(st)[:50]}`")
+
+    def bind(self, tg, v, env):
+        if isinstance(tg, ast.Name):
+            env[tg.id] = v
+        elif isinstance(tg, ast.Tuple) and isinstance(v, (tuple, list)) and len(v) == len(tg.elts):
+            for t1, v1 in zip(tg.elts, v):
+                self.bind(t1, v1, env)
+        else:
+            raise _Unmodelled(f"assignment target `{unparse(tg)}`")
+
+    # ---- expressions
+    @staticmethod
+    def truth(v):
+        return True if isinstance(v, _Opaque) else bool(v)
+
+    @staticmethod
+    def arith(op, a, b):
+        if isinstance(a, bool) or isinstance(b, bool) or not isinstance(a, int) or not isinstance(b, int):
+            raise _Unmodelled("arithmetic on a non-integer")
+        try:
+            return op(a, b)
+        except ZeroDivisionError:
+            raise _PyRaise("ZeroDivisionError")
+
+    def ev(self, e, env, depth):
+        if isinstance(e, ast.Constant):
+            return e.value
+        if isinstance(e, ast.Name):
+            if e.id in env:
+                return env[e.id]
+            raise _Unmodelled(f"name `{e.id}`")
+        if isinstance(e, ast.Tuple):
+            return tuple(self.ev(x, env, depth) for x in e.elts)
+        if isinstance(e, ast.BinOp) and type(e.op) in _BIN:
+            return self.arith(_BIN[type(e.op)], self.ev(e.left, env, depth), self.ev(e.right, env, depth))
+        if isinstance(e, ast.UnaryOp):
+            v = self.ev(e.operand, env, depth)
+            if isinstance(e.op, ast.Not):
+                return not self.truth(v)
+            if isinstance(e.op, ast.USub) and isinstance(v, int):
+                return -v
+            raise _Unmodelled(f"`{unparse(e)}`")
+        if isinstance(e, ast.BoolOp):
+            v = None
+            for x in e.values:
+                v = self.ev(x, env, depth)
+                if isinstance(e.op, ast.And) and not self.truth(v):
+                    return v
+                if isinstance(e.op, ast.Or) and self.truth(v):
+                    return v
+            return v
+        if isinstance(e, ast.IfExp):
+            return self.ev(e.body if self.truth(self.ev(e.test, env, depth)) else e.orelse, env, depth)
+        if isinstance(e, ast.Compare):
+            left = self.ev(e.left, env, depth)
+            for op, c in zip(e.ops, e.comparators):
+                right = self.ev(c, env, depth)
+                if type(op) not in _CMP:
+                    raise _Unmodelled(f"`{unparse(e)}`")
+                if isinstance(left, _Opaque) or isinstance(right, _Opaque):
+                    raise _Unmodelled(f"comparison with an unknown value `{unparse(e)}`")
+                if right is _SELF:
+                    right = self.items
+                try:
+                    if not _CMP[type(op)](left, right):
+                        return False
+                except TypeError:
+                    raise _Unmodelled(f"`{unparse(e)}` compares {left!r} with {right!r}")
+                left = right
+            return True
+        if isinstance(e, ast.Attribute):
+            v = self.ev(e.value, env, depth)
+            if v is _SELF:
+                if e.attr == "reorder_on_append":
+                    return self.roa
+                if e.attr == "ordering_attr":
+                    return _ORDERING_ATTR
+                raise _Unmodelled(f"attribute self.{e.attr}")
+            if isinstance(v, _Opaque):
+                # `adapter._referenced_by_owner`: the model is a collection in use by its owner
+                return True if e.attr == "_referenced_by_owner" else _Opaque()
+            raise _Unmodelled(f"`{unparse(e)}`")
+        if isinstance(e, ast.Subscript):
+            v = self.ev(e.value, env, depth)
+            if isinstance(e.slice, ast.Slice):
+                raise _Unmodelled("slice")
+            i = self.ev(e.slice, env, depth)
+            seq = self.items if v is _SELF else v
+            if isinstance(seq, (list, tuple, range)) and isinstance(i, int) and not isinstance(i, bool):
+                try:
+                    return seq[i]
+                except IndexError:
+                    raise _PyRaise("IndexError")
+            raise _Unmodelled(f"`{unparse(e)}`")
+        if isinstance(e, ast.Call):
+            return self.call(e, env, depth)
+        raise _Unmodelled(f"expression `{unparse(e)[:50]}`")
+
+    def listop(self, name, args):
+        """Python's own list semantics, on the model list"""
+        L = self.items
+        try:
+            if name == "sort":
+                # an arbitrary permutation may result (the key is the caller's): reversal stands for it
+                name, args = "reverse", []
+            if name in ("insert", "append", "pop", "remove", "__setitem__", "__delitem__", "reverse", "clear", "extend", "index", "count"):
+                before = list(L)
+                r = getattr(L, name)(*args)
+                self.mutated = self.mutated or before != L
+                return r
+        except (IndexError, ValueError, TypeError) as ex:
+            raise _PyRaise(type(ex).__name__)
+        raise _Unmodelled(f"list.{name}")
+
+    def call(self, c, env, depth):
+        f = c.func
+        if any(isinstance(a, ast.Starred) for a in c.args):
+            raise _Unmodelled("star-args")
+        if isinstance(f, ast.Name) and f.id == "isinstance" and f.id not in env and len(c.args) == 2:
+            v = self.ev(c.args[0], env, depth)
+            tn = c.args[1].id if isinstance(c.args[1], ast.Name) else None
+            if isinstance(v, int) and not isinstance(v, bool) and tn in ("slice", "int"):
+                return tn == "int"
+            raise _Unmodelled(f"`{unparse(c)}`")
+        args = [self.ev(a, env, depth) for a in c.args]
+        if isinstance(f, ast.Attribute):
+            # super().m(...) / list.m(self, ...): the underlying list operation
+            if isinstance(f.value, ast.Call) and dotted(f.value.func) == "super":
+                return self.listop(f.attr, args)
+            if isinstance(f.value, ast.Name) and f.value.id == "list" and args and args[0] is _SELF:
+                return self.listop(f.attr, args[1:])
+            if isinstance(f.value, ast.Name) and f.value.id == "self" and env.get("self") is _SELF:
+                if f.attr == "ordering_func":
+                    if len(args) != 2 or args[1] is not _SELF or not isinstance(args[0], int):
+                        raise _Unmodelled("ordering_func arguments")
+                    return args[0]                               # count_from_0
+                return self.call_method(f.attr, args, depth + 1)
+            recv = self.ev(f.value, env, depth) if not isinstance(f.value, ast.Name) or f.value.id in env else _Opaque()
+            if recv is _SELF or isinstance(recv, (list, _Ent)):
+                raise _Unmodelled(f"`{unparse(c)[:50]}`")
+            return _Opaque()          # a call on something that is not the list (logger, adapter): assumed effect-free
+        if isinstance(f, ast.Name):
+            n = f.id
+            if n in env:
+                raise _Unmodelled(f"call of local `{n}`")
+            ints = all(isinstance(a, int) and not isinstance(a, bool) for a in args)
+            if n == "int" and len(args) == 1 and ints:
+                return args[0]
+            if n == "len" and len(args) == 1:
+                if args[0] is _SELF:
+                    return len(self.items)
+                if isinstance(args[0], (list, tuple, range)):
+                    return len(args[0])
+            if n in ("min", "max", "abs") and args and ints:
+                return {"min": min, "max": max, "abs": abs}[n](*args)
+            if n == "range" and args and ints:
+                return range(*args)
+            if n == "enumerate" and len(args) in (1, 2) and (len(args) == 1 or isinstance(args[1], int)):
+                seq = self.items if args[0] is _SELF else args[0]
+                if isinstance(seq, (list, tuple, range)):
+                    return list(enumerate(seq, *args[1:]))
+            if n in ("list", "tuple", "reversed") and len(args) == 1:
+                seq = self.items if args[0] is _SELF else args[0]
+                if isinstance(seq, (list, tuple, range)):
+                    return list(reversed(seq)) if n == "reversed" else list(seq)
+            if n == "getattr" and len(args) >= 2 and isinstance(args[0], _Ent) and args[1] is _ORDERING_ATTR:
+                return self.pos.get(args[0])
+            if n == "setattr" and len(args) == 3 and isinstance(args[0], _Ent) and args[1] is _ORDERING_ATTR:
+                self.pos[args[0]] = args[2]
+                return None
+            if n in ("int", "len", "min", "max", "abs", "range", "enumerate", "list", "tuple", "reversed", "getattr", "setattr"):
+                raise _Unmodelled(f"`{unparse(c)[:50]}`")
+            return _Opaque()          # module-level helper (collection_adapter(self), util.warn ...): assumed effect-free
+        raise _Unmodelled(f"call `{unparse(c)[:50]}`")
+
+    # ---- verdict
+    def mismatch(self):
+        for i, e in enumerate(self.items):
+            if self.pos.get(e) != i:
+                return i, e
+        return None
+
+
+def _ol_inputs(kinds, n):
+    """argument tuples for one list-API shape, as (label, maker(model) -> args)"""
+    rng = range(-(n + 2), n + 3)
+    if kinds == ["new"]:
+        return [("new", lambda m: [_Ent("new")])]
+    if kinds == ["index", "new"]:
+        return [(f"{i}, new", lambda m, i=i: [i, _Ent("new")]) for i in rng]
+    if kinds == ["index?"]:
+        return [("", lambda m: [])] + [(f"{i}", lambda m, i=i: [i]) for i in rng]
+    if kinds == ["index"]:
+        return [(f"{i}", lambda m, i=i: [i]) for i in rng]
+    if kinds == ["member"]:
+        return [(f"e{i}", lambda m, i=i: [m.items[i]]) for i in range(n)] + [("absent", lambda m: [_Ent("absent")])]
+    if kinds == []:
+        return [("", lambda m: [])]
+    raise _Unmodelled(f"argument shape {kinds}")
+
+
+@R.rule("C50-R3", floor=8, template="T-MODEL",
+        desc="small-scope model check by abstract execution of OrderingList's source: for every overridden list mutator, "
+             "every list length 0..3, every int index in [-(n+2), n+2] (Python semantics: negative counts from the end, "
+             "insert clamps) and both reorder_on_append settings, the operation ends -- normally or by the builtin's "
+             "IndexError/ValueError -- with position == index for EVERY element of the list, the new one included")
+def r3(ctx):
+    cls = ctx.index.cls(f"{OL}::OrderingList")
+    members, order_only = python_mutators("list")
+    done = 0
+    for m in members + order_only:
+        f = cls.methods.get(m)
+        if m not in LIST_SEM:
+            continue
+        if f is None or f.type_only:
+            ctx.ok(f"{OL}::OrderingList.{m}:position==index", "no override to model (cover is C50-R1's business)", nontrivial=False)
+            continue
+        ctx.functions_analysed.add(f.key)
+        key = f"{f.key}:position==index"
+        worst = None
+        runs = 0
+        for n in range(0, 4):
+            for roa in (False, True):
+                for label, mk in _ol_inputs(LIST_SEM[m]["args"], n):
+                    model = _OLModel(cls, n, roa)
+                    args = mk(model)
+                    start = [repr(e) for e in model.items]
+                    raised = None
+                    try:
+                        model.call_method(m, args)
+                    except _PyRaise as ex:
+                        raised = str(ex)
+                    except _Unmodelled as ex:
+                        ctx.require(False, f"{key}: OrderingList.{m}({label}) uses a construct outside the modelled subset: {ex}")
+                    runs += 1
+                    bad = model.mismatch()
+                    if bad is not None:
+                        i, e = bad
+                        cand = (n, len(label), f"on a list of {n} ({', '.join(start) or 'empty'}; positions 0..{n - 1} correct), "
+                                f"`{m}({label})`" + (f" [reorder_on_append={roa}]" if m == "append" else "")
+                                + (f" raises {raised} after the list was changed and" if raised else "")
+                                + f" leaves {[repr(x) for x in model.items]} with positions {[model.pos.get(x) for x in model.items]}: "
+                                f"{e!r} at index {i} has position {model.pos.get(e)}")
+                        if worst is None or cand[:2] < worst[:2]:
+                            worst = cand
+        ctx.check(worst is None, key,
+                  "position != index after the operation: " + (worst[2] if worst else "")
+                  + "; the wrong number is flushed and `order_by position` returns another order on reload",
+                  f"{runs} modelled runs end with position == index", f.loc)
+        done += 1
+    ctx.require(done > 0, "no overridden list mutator of OrderingList could be modelled")
 
 
 APC = {"list": ("_AssociationList", "MutableSequence"), "set": ("_AssociationSet", "MutableSet"),
@@ -228,6 +633,228 @@ def r2(ctx):
             ctx.note(f"{cname}: operations that are loudly unavailable (raise): {unsupported}")
 
 
+# ------------------------------------------------------- C50-R4: whole-collection assignment = three-way partition
+#: the Venn regions of (existing collection, assigned values)
+_E, _B, _V = "only-existing", "in-both", "only-new"
+_SETLIKE = {"set", "frozenset", "list", "tuple", "IdentitySet", "OrderedSet", "OrderedIdentitySet", "idset", "dict"}
+_ADD_CALLS = {"add", "append", "appender"}
+_REM_CALLS = {"remove", "discard", "remover", "pop"}
+_BULK_ADD = {"update", "extend", "_set"}
+
+
+class _Venn:
+    """Evaluates the set algebra of a bulk-replace routine over the three regions of (existing, values) and replays,
+    region by region, what the routine does to a key of that region."""
+
+    def __init__(self, fn, existing_names, values_name):
+        self.fn = fn
+        self.env = {n: frozenset({_E, _B}) for n in existing_names}
+        self.env[values_name] = frozenset({_B, _V})
+        self.alias = {}      # local -> dotted callee (appender = self.add)
+        # per region: is a key of that region in the resulting collection, and was its value (re)assigned?
+        self.present = {_E: True, _B: True, _V: False}
+        self.fresh = {_E: False, _B: False, _V: False}
+        self.unknown = []
+
+    def regions(self, e):
+        if isinstance(e, ast.Name):
+            return self.env.get(e.id)
+        if isinstance(e, ast.BoolOp) and isinstance(e.op, ast.Or):
+            return self.regions(e.values[0])                       # `values or ()`
+        if isinstance(e, (ast.Tuple, ast.List, ast.Set)) and not e.elts:
+            return frozenset()
+        if isinstance(e, ast.BinOp):
+            a, b = self.regions(e.left), self.regions(e.right)
+            if a is None or b is None:
+                return None
+            return {ast.BitAnd: a & b, ast.Sub: a - b, ast.BitOr: a | b, ast.BitXor: a ^ b}.get(type(e.op))
+        if isinstance(e, ast.Call):
+            f = e.func
+            if isinstance(f, ast.Attribute):
+                recv = self.regions(f.value)
+                if recv is not None:
+                    if f.attr in ("items", "keys", "copy") and not e.args:
+                        return recv
+                    if f.attr in ("intersection", "difference", "union", "symmetric_difference") and len(e.args) == 1:
+                        b = self.regions(e.args[0])
+                        if b is None:
+                            return None
+                        return {"intersection": recv & b, "difference": recv - b, "union": recv | b,
+                                "symmetric_difference": recv ^ b}[f.attr]
+                    return None
+            nm = (call_name(e) or "").split(".")[-1]
+            nm = self.alias.get(nm, nm).split(".")[-1]
+            if nm in _SETLIKE and len(e.args) == 1:
+                return self.regions(e.args[0])
+        return None
+
+    def callee(self, c):
+        nm = call_name(c) or ""
+        if isinstance(c.func, ast.Name) and c.func.id in self.alias:
+            nm = self.alias[c.func.id]
+        return nm
+
+    def effect(self, regs, kind):
+        for r in regs:
+            if kind == "remove":
+                self.present[r], self.fresh[r] = False, False
+            elif kind == "assign":
+                self.present[r], self.fresh[r] = True, True
+            elif kind == "add":                 # set.add / list.append of a member: a no-op for a present set member
+                if not self.present[r]:
+                    self.present[r], self.fresh[r] = True, True
+
+    def run(self, body, key=None, region=None):
+        for st in body:
+            if isinstance(st, (ast.Assign, ast.AnnAssign)) and getattr(st, "value", None) is not None:
+                tgs = st.targets if isinstance(st, ast.Assign) else [st.target]
+                tg = tgs[0]
+                if isinstance(tg, ast.Name):
+                    r = self.regions(st.value)
+                    if r is not None:
+                        self.env[tg.id] = r
+                        continue
+                    if isinstance(st.value, ast.Call) and (call_name(st.value) or "").endswith("bulk_appender"):
+                        self.alias[tg.id] = "appender"
+                    elif isinstance(st.value, (ast.Name, ast.Attribute)) and dotted(st.value):
+                        self.alias[tg.id] = dotted(st.value)
+                    continue
+                if isinstance(tg, ast.Subscript) and dotted(tg.value) == "self" and key is not None \
+                        and isinstance(tg.slice, ast.Name) and tg.slice.id == key:
+                    self.effect([region], "assign")
+                    continue
+                self.unknown.append(unparse(st)[:60])
+            elif isinstance(st, ast.Delete):
+                for tg in st.targets:
+                    if isinstance(tg, ast.Subscript) and dotted(tg.value) == "self" and key is not None \
+                            and isinstance(tg.slice, ast.Name) and tg.slice.id == key:
+                        self.effect([region], "remove")
+                    else:
+                        self.unknown.append(unparse(st)[:60])
+            elif isinstance(st, ast.Expr) and isinstance(st.value, ast.Call):
+                self.call(st.value, key, region)
+            elif isinstance(st, ast.Expr):
+                continue
+            elif isinstance(st, ast.If):
+                t = self.test(st.test, key, region)
+                if t is None:
+                    self.unknown.append("if " + unparse(st.test)[:60])
+                    # existence checks on the old collection (`if existing_adapter:`) guard event firing only
+                    self.run(st.body, key, region)
+                else:
+                    self.run(st.body if t else st.orelse, key, region)
+            elif isinstance(st, ast.For):
+                regs = self.regions(st.iter)
+                if regs is None or key is not None:
+                    self.unknown.append("for ... in " + unparse(st.iter)[:60])
+                    continue
+                tg = st.target
+                k = tg.id if isinstance(tg, ast.Name) else (tg.elts[0].id if isinstance(tg, ast.Tuple) and tg.elts and isinstance(tg.elts[0], ast.Name) else None)
+                if k is None:
+                    self.unknown.append("for target " + unparse(tg))
+                    continue
+                for r in sorted(regs):
+                    self.run(st.body, k, r)
+            elif isinstance(st, (ast.Assert, ast.Pass)):
+                continue
+            else:
+                self.unknown.append(unparse(st)[:60])
+
+    def test(self, t, key, region):
+        if isinstance(t, ast.UnaryOp) and isinstance(t.op, ast.Not):
+            v = self.test(t.operand, key, region)
+            return None if v is None else not v
+        if isinstance(t, ast.BoolOp):
+            vs = [self.test(v, key, region) for v in t.values]
+            if any(v is None for v in vs):
+                return None
+            return all(vs) if isinstance(t.op, ast.And) else any(vs)
+        if isinstance(t, ast.Compare) and len(t.ops) == 1 and isinstance(t.ops[0], (ast.In, ast.NotIn)) \
+                and isinstance(t.left, ast.Name) and t.left.id == key:
+            regs = self.regions(t.comparators[0])
+            if regs is None:
+                return None
+            return (region in regs) == isinstance(t.ops[0], ast.In)
+        return None
+
+    def call(self, c, key, region):
+        nm = self.callee(c)
+        last = nm.split(".")[-1]
+        a0 = c.args[0] if c.args else None
+        if key is not None and isinstance(a0, ast.Name) and a0.id == key:
+            if last in _ADD_CALLS:
+                return self.effect([region], "add")
+            if last in _REM_CALLS:
+                return self.effect([region], "remove")
+        if key is None:
+            if nm == "self.clear" and not c.args:
+                return self.effect([_E, _B], "remove")
+            for a in c.args:
+                regs = self.regions(a)
+                if regs is not None and not (isinstance(a, ast.Name) and a.id == "self"):
+                    if last in _BULK_ADD:
+                        return self.effect(sorted(regs), "assign")
+                    if "remove" in last:
+                        return self.effect(sorted(regs), "remove")
+                    if "append" in last:
+                        return None            # event-only helper for members that stay
+        self.unknown.append(unparse(c)[:60])
+
+
+@R.rule("C50-R4", floor=5, template="T-SIBLING",
+        desc="whole-collection assignment: every _bulk_replace of the association-proxy collections (and "
+             "orm.collections.bulk_replace) treats all three regions of (existing, new) -- keys only in the old collection "
+             "are removed, keys only in the new one are created, and keys in BOTH stay present; for the dict proxy the "
+             "kept keys are re-assigned (their value may differ) -- decided by evaluating the routine's set algebra over "
+             "the Venn regions and replaying its loops per region")
+def r4(ctx):
+    ix = ctx.index
+    m = ix.module(AP)
+    fam = [f for f in ix.all_functions(m) if f.name == "_bulk_replace" and f.cls is not None and not f.type_only]
+    ctx.require(len(fam) >= 3, f"only {len(fam)} _bulk_replace implementations found in {AP}")
+    jobs = [(f, ["self"], f.params[-1], "dict" if ix.is_subclass(f.cls, ix.cls(f"{AP}::_AssociationDict")) else "members") for f in fam]
+    ob = ix.func("orm/collections.py::bulk_replace")
+    ctx.require(len(ob.params) >= 3, "orm.collections.bulk_replace signature not understood")
+    jobs.append((ob, [ob.params[1]], ob.params[0], "fresh"))
+    # the list proxy's routine is clear() + AssociationProxyInstance._set(proxy, values): _set has to hand ALL the values to
+    # the proxy's bulk adder for each builtin collection type
+    sf = ix.func(f"{AP}::AssociationProxyInstance._set")
+    ctx.functions_analysed.add(sf.key)
+    vals = sf.params[-1]
+    branches = [n for n in ast.walk(sf.node) if isinstance(n, ast.If) and "collection_class is" in unparse(n.test)]
+    ctx.require(branches, f"{sf.key}: dispatch on collection_class not found")
+    bad = [unparse(b.test) for b in branches
+           if not any(isinstance(c.func, ast.Attribute) and c.func.attr in ("extend", "update") and len(c.args) == 1
+                      and isinstance(c.args[0], ast.Name) and c.args[0].id == vals for st in b.body for c in calls_in(st))]
+    ctx.check(not bad, f"{sf.key}:bulk-add", f"branch `{'`, `'.join(bad)}` does not pass the assigned values to the proxy's extend()/update()",
+              f"{len(branches)} collection types -> proxy.extend/update({vals})", sf.loc)
+    for f, existing, values, mode in jobs:
+        ctx.functions_analysed.add(f.key)
+        v = _Venn(f.node, existing, values)
+        if mode == "fresh":
+            # the new adapter starts empty: every assigned value has to be appended to it
+            v.present = {_E: False, _B: False, _V: False}
+        v.run(f.node.body)
+        probs = []
+        if v.present[_E] and mode != "fresh":
+            probs.append("a key/member that is only in the OLD collection is never removed")
+        if not v.present[_V]:
+            probs.append("a key/member that is only in the NEW value is never created")
+        if not v.present[_B]:
+            probs.append("a key/member that is in both the old collection and the new value is missing afterwards")
+        elif mode == "dict" and not v.fresh[_B]:
+            probs.append("a key that is in both the old dict and the new value is not re-assigned: it keeps its OLD value although "
+                         "the assigned mapping may give it another one (`obj.proxy = {k: new}` leaves proxy[k] == old, and the "
+                         "association row keeps the stale value)")
+        if probs:
+            ctx.violation(f"{f.key}:partition", "; ".join(probs), f.loc)
+        else:
+            # a verdict needs the routine to be understood; constructs we skipped matter only when nothing fired
+            hard = [u for u in v.unknown if not u.startswith("if ")]
+            ctx.require(not hard, f"{f.key}: bulk replace uses constructs the region replay does not understand: {hard}")
+            ctx.ok(f"{f.key}:partition", f"old-only removed, new-only created, kept {'re-assigned' if v.fresh[_B] else 'present'}")
+
+
 # ------------------------------------------------------------------------------------- self-test
 R.mutant("ol-insert-no-reorder", OL,
          sub("        super().insert(index, entity)\n        self._reorder()\n", "        super().insert(index, entity)\n"), "C50-R1")
@@ -267,3 +894,54 @@ R.mutant("benign-ol-sort-override", OL,
 R.mutant("benign-ap-append-inline", AP,
          sub("        col = self.col\n        item = self._create(value)\n        col.append(item)\n", "        self.col.append(self._create(value))\n"),
          None)
+
+# ---- adversarial seeds (str-s)
+INS = "        super().insert(index, entity)\n        self._reorder()\n"
+R.mutant("seed1-ol-insert-renumbers-tail-from-post-insert-length", OL,
+         sub(INS, "        super().insert(index, entity)\n        start = int(index)\n        if start < 0:\n            start = max(start + len(self), 0)\n"
+                  "        for i in range(min(start, len(self) - 1), len(self)):\n            self._order_entity(i, self[i], True)\n"), "C50-R3")
+R.mutant("ol-insert-numbers-new-entity-only", OL,
+         sub(INS, "        super().insert(index, entity)\n        self._order_entity(int(index), entity, True)\n"), "C50-R1")
+R.mutant("ol-pop-renumbers-tail-from-raw-index", OL,
+         sub("        entity = super().pop(index)\n        self._reorder()\n",
+             "        entity = super().pop(index)\n        for i in range(int(index), len(self)):\n            self._order_entity(i, self[i], True)\n"), "C50-R3")
+R.mutant("ol-order-entity-keeps-stale-when-reorder", OL,
+         sub("        if have is not None and not reorder:\n            return\n", "        if have is not None and reorder:\n            return\n"), "C50-R3")
+R.mutant("ol-reorder-counts-from-one", OL,
+         sub("        for index, entity in enumerate(self):\n            self._order_entity(index, entity, True)\n",
+             "        for index, entity in enumerate(self, 1):\n            self._order_entity(index, entity, True)\n"), "C50-R3")
+R.mutant("ol-delitem-reorder-before-delete", OL,
+         sub("        super().__delitem__(index)\n        self._reorder()\n", "        self._reorder()\n        super().__delitem__(index)\n"), "C50-R3")
+# the same optimisation done right: the start is normalised against the PRE-insert length
+R.mutant("benign-ol-insert-renumbers-tail-correctly", OL,
+         sub(INS, "        before = len(self)\n        super().insert(index, entity)\n        start = int(index)\n        if start < 0:\n            start = max(start + before, 0)\n"
+                  "        for i in range(min(start, before), len(self)):\n            self._order_entity(i, self[i], True)\n"), None)
+R.mutant("benign-ol-insert-inlines-reorder", OL,
+         sub(INS, "        super().insert(index, entity)\n        for i, member in enumerate(self):\n            self._order_entity(i, member, True)\n"), None)
+# the repair of the C50-R3 finding must be accepted
+R.mutant("benign-ol-setitem-normalises-negative-index", OL,
+         sub("            self._order_entity(int(index), entity, True)  # type: ignore[arg-type] # noqa: E501\n",
+             "            position = int(index)\n            if position < 0:\n                position += len(self)\n            self._order_entity(position, entity, True)\n"), None)
+DCONST = "            elif key in constants:\n                self[key] = member\n"
+SCONST = "            elif member in constants:\n                appender(member)\n"
+R.mutant("seed2-apdict-bulk-replace-skips-kept-keys", AP, chain(sub(DCONST, ""), sub(SCONST, "")), "C50-R4")
+R.mutant("apdict-bulk-replace-skips-kept-keys", AP, sub(DCONST, ""), "C50-R4")
+R.mutant("apset-bulk-replace-never-removes", AP,
+         sub("        for member in removals:\n            remover(member)\n", ""), "C50-R4")
+R.mutant("apdict-bulk-replace-removes-kept-keys-too", AP,
+         sub("        removals = existing.difference(constants)\n\n        for key, member in values.items() or ():",
+             "        removals = existing\n\n        for key, member in values.items() or ():"), "C50-R4")
+R.mutant("apset-bulk-replace-adds-only-kept", AP,
+         sub("            if member in additions:\n                appender(member)\n            elif member in constants:\n                appender(member)\n",
+             "            if member in constants:\n                appender(member)\n"), "C50-R4")
+R.mutant("orm-bulk-replace-skips-kept-members", "orm/collections.py",
+         sub("        elif member in constants:\n            appender(member, _sa_initiator=False)\n", ""), "C50-R4")
+R.mutant("ap-set-dispatch-list-drops-values", AP,
+         sub("            cast(\"_AssociationList[Any]\", proxy).extend(values)\n", "            cast(\"_AssociationList[Any]\", proxy).extend(())\n"), "C50-R4")
+# for the SET proxy re-adding a member that stays is a no-op: dropping that branch alone changes nothing
+R.mutant("benign-apset-bulk-replace-skips-kept-members", AP, sub(SCONST, ""), None)
+R.mutant("benign-apdict-additions-as-difference-with-existing", AP,
+         sub("        removals = existing.difference(constants)\n\n        for key, member in values.items() or ():",
+             "        removals = existing - constants\n\n        for key, member in values.items() or ():"), None)
+R.mutant("benign-apdict-bulk-replace-assigns-every-value", AP,
+         sub("            if key in additions:\n                self[key] = member\n" + DCONST, "            self[key] = member\n"), None)
